@@ -100,6 +100,12 @@ def gen(r):
             else:
                 feed.extend(['add', x] for x in stream[i:i + m])
             i += m
+    if style == 'adversarial' and r.random() < 0.5:
+        # a hot key bumped through mapping/keyword updates with counts >= 2 at arbitrary moments (bucket
+        # boundaries included) while the adversarial keys keep arriving
+        feed.insert(0, ['add', 'hot'])
+        for _ in range(r.randint(1, max(2, len(feed) // 6))):
+            feed.insert(r.randint(1, len(feed)), [r.choice(['update-map', 'update-kw']), [['hot', r.randint(2, 4)]]])
     return {'threshold': thr, 'feed': feed}
 
 
@@ -145,6 +151,19 @@ def check(c, st):
     dropped = False
     size_violated = None
     step = 0
+    ref = {}            # textbook lossy counting: key -> [count since entry, bucket at entry - 1]
+    refstate = {'n': 0, 'bucket': 1}
+
+    def ref_add(key):
+        refstate['n'] += 1
+        if key in ref:
+            ref[key][0] += 1
+        else:
+            ref[key] = [1, refstate['bucket'] - 1]
+        if refstate['n'] % w == 0:
+            for k in [k for k, (f, d) in ref.items() if f + d <= refstate['bucket']]:
+                del ref[k]
+            refstate['bucket'] += 1
 
     def clauses(where):
         nonlocal dropped, size_violated
@@ -173,6 +192,12 @@ def check(c, st):
             return ('size_bound:beyond-lossy-counting-worst-case',
                     'after %d additions %d keys are tracked; 2/threshold = %.1f and even the lossy-counting worst '
                     'case w*H(b) = %.1f is exceeded' % (total, len(tc), 2 / thr, worst))
+        # and on THIS stream: textbook lossy counting (run in lock-step below) is the yardstick for what the
+        # recorded finding explains.  Only consulted when the size clause of the statement already fails.
+        if len(tc) > 2 / thr and len(tc) > len(ref):
+            return ('size_bound:more-keys-than-lossy-counting-keeps',
+                    'after %d additions %d keys are tracked (2/threshold = %.1f) but textbook lossy counting keeps '
+                    'only %d on this stream' % (total, len(tc), 2 / thr, len(ref)))
         if tc.get_common_count() + tc.get_uncommon_count() != total:
             return ('common+uncommon', '%d + %d != %d' % (tc.get_common_count(), tc.get_uncommon_count(), total))
         if tc.get_common_count() != sum(items.values()):
@@ -186,34 +211,47 @@ def check(c, st):
                 tc.add(f[1])
                 exact[f[1]] += 1
                 total += 1
+                ref_add(f[1])
             elif how == 'update-iter':
                 tc.update(iter(list(f[1])))
                 exact.update(f[1])
                 total += len(f[1])
+                for k in f[1]:
+                    ref_add(k)
             elif how == 'update-list':
                 tc.update(list(f[1]))
                 exact.update(f[1])
                 total += len(f[1])
+                for k in f[1]:
+                    ref_add(k)
             elif how == 'update-map':
                 m = {k: n for k, n in f[1]}
                 tc.update(m)
                 for k, n in m.items():
                     exact[k] += n
                     total += n
+                    for _ in range(n):
+                        ref_add(k)
             else:
                 m = {k: n for k, n in f[1]}
-                tc.update(None, **m) if False else tc.update([], **m)
+                tc.update([], **m)
                 for k, n in m.items():
                     exact[k] += n
                     total += n
+                    for _ in range(n):
+                        ref_add(k)
         except Exception as e:
             return ('raised:%s:%s' % (how, type(e).__name__), '%s raised %r' % (how, e))
         step += 1
         if step % every == 0 or how != 'add':
             p = clauses(how if how != 'add' else 'add')
             if p:
-                p2 = (p[0] if not p[0].startswith('total:') and how == 'add' else
-                      (p[0] if how == 'add' else p[0].split(':')[0] + ':via-' + how))
+                if how == 'add':
+                    p2 = p[0]
+                elif p[0].startswith('total:'):
+                    p2 = 'total:via-' + how
+                else:
+                    p2 = p[0] + ':via-' + how
                 return (p2, p[1] + ' (threshold %r, step %d)' % (thr, step))
     p = clauses('end')
     if p:
